@@ -99,6 +99,19 @@ CHECKS["C11"] = dict(
   note="Trusts yref.IdentityClosure. Order dependence is only seen if the runtime iterates a map differently in one of the 18 runs of a case (probability per tie and run about 1/8 with Go 1.23 maps).",
   design="DESIGN.md section 4, C11")
 
+CHECKS["C17"] = dict(
+  category="exploration",
+  technique="rapid model-based generation of processed trees; near-exhaustive enumeration of (start, target) pairs per case with pointer-identity oracle from an independent tree walk; seeded negative path mutations",
+  text="On every generated processed tree set (uses, submodules, augments incl. unwritten rpc input/output, implicit cases, operations) the absolute prefixed path of every node every start module can name is looked up from every module root and a seeded quarter of the inner nodes written in that module, plus the relative '..' spelling inside one tree; the result must be pointer-identical with the node reached by walking Dir/RPC by names. For a third of the pairs one step is replaced by a non-existent name (first/middle/last, below rpc, below input/output) and the lookup must return nil.",
+  note="Trusts the schema model for node names and prefixes and the harness walk. Copies made by uses/augment are not used as start nodes; unwritten action input/output is not a target.",
+  design="DESIGN.md section 4, C17")
+CHECKS["C18"] = dict(
+  category="exploration",
+  technique="rapid-generated operation histories (stateful model-based testing) against a batch-run reference: after every process the result must equal a fresh module set loaded with exactly the accepted texts",
+  text="Histories of load(good), load(bad: syntax error, module or submodule rejected after an inner typedef was built, duplicate), process and read operations over one Modules are generated with a pool of mutually consistent texts loaded in random order (imports/includes often missing at first). The model is the list of accepted texts; after every process the error list and the complete dump (all module and submodule trees with types, attributes, identity lists) must equal those of a fresh set with the same texts processed once, consecutive runs must agree and every bad load must return an error. Histories whose batch run itself crashes are left to C01.",
+  note="Trusts only equality of two runs of the code under test (metamorphic/differential oracle) and the canonical dump. Multi-module texts and revisions are not used; reads respect the documented 'Process first' precondition.",
+  design="DESIGN.md section 4, C18")
+
 PENDING = {}
 
 def main():
